@@ -314,6 +314,12 @@ func c14Structure(c *Ctx) {
 			if lk, ok := fct.Cond.(*ssa.Lookup); ok && fct.True && isField(lk.Index, "KeyId") {
 				return true
 			}
+			// _, seen := ids[key.KeyId]; seen
+			if ex, ok := fct.Cond.(*ssa.Extract); ok && fct.True && ex.Index == 1 {
+				if lk, isLk := ex.Tuple.(*ssa.Lookup); isLk && lk.CommaOk && isField(lk.Index, "KeyId") {
+					return true
+				}
+			}
 		}
 		return false
 	}
@@ -347,7 +353,9 @@ func c14Structure(c *Ctx) {
 	fed := false
 	allInstrs(f, func(ins ssa.Instruction) {
 		if mu, ok := ins.(*ssa.MapUpdate); ok && isField(mu.Key, "KeyId") && loop.Blocks[mu.Block()] {
-			if b, isC := guard.ConstBool(mu.Value); isC && b {
+			b, isC := guard.ConstBool(mu.Value)
+			_, isSet := mu.Value.Type().Underlying().(*types.Struct) // map[uint32]struct{} used as a set
+			if (isC && b) || isSet {
 				// dominates every back edge of the loop
 				all := true
 				for _, pred := range loop.Header.Preds {
